@@ -9,6 +9,7 @@ import (
 	"encoding/binary"
 	"encoding/json"
 	"fmt"
+	"os"
 	"runtime"
 	"testing"
 
@@ -237,7 +238,7 @@ func checkDecode(c DecodeCase) (v *Violation, decoded bool) {
 		}
 		n, err := iavl.MakeNode(nkb, c.Buf)
 		key := append([]byte("s"), nkb...)
-		d, derr := decodeNode(key, c.Buf)
+		d, derr := decodeHybridNew(key, c.Buf)
 		if err != nil {
 			return nil, false
 		}
@@ -252,10 +253,14 @@ func checkDecode(c DecodeCase) (v *Violation, decoded bool) {
 			return viol("MakeNode(%x) = h=%d size=%d key=%q value=%q; independent decoder: h=%d size=%d key=%q value=%q", c.Buf, info.Height, info.Size, info.Key, info.Value, d.Height, d.Size, d.Key, d.Value), true
 		}
 		if d.Height > 0 {
-			l := iavl.GetNodeKey(info.LeftKey)
-			r := iavl.GetNodeKey(info.RightKey)
-			if !bytes.Equal(info.Hash, d.Hash) || string(l.GetKey()) != nk(d.LVer, d.LNon)[1:] || string(r.GetKey()) != nk(d.RVer, d.RNon)[1:] {
-				return viol("MakeNode(%x): child links / hash differ from the independent decoder", c.Buf), true
+			link := func(c childRef) string {
+				if c.Hash != nil {
+					return string(c.Hash) // legacy child: the node key is the 32-byte hash itself
+				}
+				return nk(c.Ver, c.Nonce)[1:]
+			}
+			if !bytes.Equal(info.Hash, d.Hash) || string(info.LeftKey) != link(d.Left) || string(info.RightKey) != link(d.Right) {
+				return viol("MakeNode(%x): child links / hash differ from the independent decoder (mode %d): left %x want %x, right %x want %x", c.Buf, d.Mode, info.LeftKey, link(d.Left), info.RightKey, link(d.Right)), true
 			}
 		}
 		return nil, true
@@ -362,8 +367,20 @@ func validEncoding(t *rapid.T, target string) (nkb, buf []byte) {
 		} else {
 			h := rapid.SliceOfN(rapid.Byte(), 32, 32).Draw(t, "hash")
 			in := &RNode{Key: genKey(t, nil), Height: int8(rapid.IntRange(1, 30).Draw(t, "h")), Size: rapid.Int64Range(2, 1<<40).Draw(t, "size"), Hash: h}
-			buf = EncodeNodeBody(in, [2]int64{rapid.Int64Range(1, 300).Draw(t, "lv"), rapid.Int64Range(1, 1<<20).Draw(t, "ln")},
-				[2]int64{rapid.Int64Range(1, 300).Draw(t, "rv"), rapid.Int64Range(1, 1<<20).Draw(t, "rn")})
+			l := [2]int64{rapid.Int64Range(1, 300).Draw(t, "lv"), rapid.Int64Range(1, 1<<20).Draw(t, "ln")}
+			r := [2]int64{rapid.Int64Range(1, 300).Draw(t, "rv"), rapid.Int64Range(1, 1<<20).Draw(t, "rn")}
+			// hybrid forms (a store migrated from the legacy layout): either child may be named by its 32-byte hash
+			var lh, rh []byte
+			switch rapid.IntRange(0, 5).Draw(t, "mode") {
+			case 1:
+				lh = rapid.SliceOfN(rapid.Byte(), 32, 32).Draw(t, "lh32")
+			case 2:
+				rh = rapid.SliceOfN(rapid.Byte(), 32, 32).Draw(t, "rh32")
+			case 3:
+				lh = rapid.SliceOfN(rapid.Byte(), 32, 32).Draw(t, "lh32")
+				rh = rapid.SliceOfN(rapid.Byte(), 32, 32).Draw(t, "rh32")
+			}
+			buf = EncodeHybridInner(in, l, r, lh, rh)
 		}
 		if target == "MakeLegacyNode" {
 			nkb = rapid.SliceOfN(rapid.Byte(), 32, 32).Draw(t, "lhash")
@@ -452,6 +469,13 @@ func TestC13c(t *testing.T) {
 		valid := append([]byte{}, buf...)
 		buf = mutateBytes(rt, buf)
 		c := DecodeCase{Prop: "C13", Kind: "decode", Target: target, NK: nkb, Buf: buf}
+		// the case is saved before the decoder runs: a runtime abort (out of memory, stack overflow) cannot be
+		// recovered in-process, and the driver then takes this file as the replay input
+		if p := os.Getenv("VERIF_PENDING"); p != "" {
+			if raw, err := json.Marshal(c); err == nil {
+				_ = os.WriteFile(p, raw, 0o644)
+			}
+		}
 		v, decoded := checkDecode(c)
 		if v != nil {
 			reportViolation(rt, "C13", c, v)
@@ -460,6 +484,9 @@ func TestC13c(t *testing.T) {
 		RecordCase("C13", c, mutated && len(buf) > 2, map[string]bool{"decode_" + target: true, "decode_accepted": decoded, "decode_mutated": mutated})
 		Count("C13", "decoder_inputs", 1)
 	})
+	if p := os.Getenv("VERIF_PENDING"); p != "" {
+		_ = os.Remove(p)
+	}
 }
 
 func init() {
